@@ -362,6 +362,34 @@ fn find_cutoff(pars: &[f64], max_cutoff: usize) -> usize {
     cutoff
 }
 
+/// Verification hooks: the private likelihood, gradient and cutoff functions.
+#[cfg(feature = "verif-hooks")]
+pub mod verif {
+    /// Mixture log-likelihood
+    pub fn log_likelihood(pars: &[f64], counts: &[f64]) -> f64 {
+        super::log_likelihood(pars, counts)
+    }
+    /// Analytic gradient of the log-likelihood
+    pub fn grad_ll(pars: &[f64], counts: &[f64]) -> Vec<f64> {
+        super::grad_ll(pars, counts)
+    }
+    /// Integer cutoff search
+    pub fn find_cutoff(pars: &[f64], max_cutoff: usize) -> usize {
+        super::find_cutoff(pars, max_cutoff)
+    }
+}
+
+#[cfg(feature = "verif-hooks")]
+impl<IntT> CoverageHistogram<IntT>
+where
+    IntT: for<'a> UInt<'a>,
+{
+    /// Verification hook: fitted (w0, c, cutoff) and the truncated histogram.
+    pub fn verif_fit(&self) -> (f64, f64, usize, Vec<u32>) {
+        (self.w0, self.c, self.cutoff, self.counts.clone())
+    }
+}
+
 #[cfg(test)]
 mod tests {
     use super::*;
